@@ -164,10 +164,10 @@ package api
 //@   note assumed: call counter / call log (ghost bookkeeping only); plugin frame; a job-solution-start hook leaves the session skeleton alone and registers no further hook (for this func() type the `stable` check cannot succeed)
 //@ end
 
-// C04 "only nodes of the candidate set": a subset function returns subsets of the node set it is given
+// subset functions (topology): only the plugin frame is assumed here; "returns subsets of the node set it is given" is
+// the `trust [subsetsOfParent]` clause of framework.(*Session).SubsetNodesFn
 //@ func type:SubsetNodesFn
 //@   modifies *
 //@   ensures [assumed] framework.pluginFrame()
-//@   ensures [assumed] old(framework.allCand(nodeSet)) && result1 == nil ==> framework.subsetsOK(result0)
-//@   note assumed (was assumed at the wrapper Session.SubsetNodesFn before): every registered subset function (topology plugin) returns subsets of the node set it is given; plugin frame. The subset property is stated SCHEMATICALLY, for the uninterpreted node predicate framework.candNode (a declared symbol, constrained only inside the unit (*Session).SubsetNodesFn): "if every node handed in satisfies candNode, so does every node of every returned set". For an unconstrained predicate this is exactly `returned nodes are nodes of the input set` (take candNode := membership in the input); the form keeps existentials out of the wrapper's loop obligations
+//@   note assumed: plugin frame
 //@ end
